@@ -429,9 +429,15 @@ def random_model(rng, n, pkind, X):
         # the structure is read AFTER the public evaluation entry points have run (no re-initialisation
         # by the harness in between: evaluation may only read the structure)
         ops = [rng.choice(EVAL_OPS) for _ in range(rng.randint(1, 3))]
+        raised = ''
         for op in ops:
-            evaluate(model, op)
-        label = '%s:after-evaluation:%s:%s:%s' % (label, mkind, '+'.join(which), '+'.join(ops))
+            try:
+                evaluate(model, op)
+            except Exception as e:      # the structure is still owed; the exception goes into the input class
+                raised = ':evaluation-raised-%s-in-%s' % (type(e).__name__, op)
+                declared['raised'] = '%s@evaluation:%s:%s' % (type(e).__name__, mkind, op)
+                break
+        label = '%s:after-evaluation:%s:%s:%s%s' % (label, mkind, '+'.join(which), '+'.join(ops), raised)
     return model, declared, label
 
 
@@ -486,7 +492,7 @@ def route_events(model, mid, n, declared, lev, X):
         rz, rH, rg, rdz = model.planet.calculate_scale_properties(T, np.asarray(lev, dtype=float), mu, length_units=unit)
     except Exception:
         rz = rH = rg = rdz = None
-    keep = list(range(n)) if n <= 24 else sorted(set([0, 1, 2, n - 2, n - 1] + list(range(3, n - 2, max(1, n // 18)))))
+    keep = list(range(n)) if n <= 12 else sorted(set([0, 1, 2, n - 2, n - 1] + list(range(3, n - 2, max(1, n // 7)))))
     ev, floats = [], []
     for i in keep:
         lr = ln_ratio(lev[i], lev[i + 1]) if (len(lev) == n + 1 and lev[i] > 0 and lev[i + 1] > 0 and lev[i] > lev[i + 1]) else None
@@ -564,12 +570,15 @@ def float_step_ok(v, route='model'):
 
 def layer_counts(rng, q):
     base = [1, 1, 2, 2, 3, 5, 10, 30, 100, 200]
-    extra = [rng.randint(1, 200) for _ in range(24 if q else 600)]
+    extra = [rng.randint(1, 200) for _ in range(18 if q else 600)]
     small = [rng.randint(1, 12) for _ in range(12 if q else 300)]
     return base + extra + small
 
 
 def validate_chunks(events, chunk=6000, threads=4):
+    if len(events) <= 3 * chunk:          # quick tier: a handful of TLC processes side by side
+        chunk = max(1200, len(events) // 5 + 1)
+        threads = 5
     chunks = [events[k:k + chunk] for k in range(0, len(events), chunk)]
 
     def one(c):
@@ -587,7 +596,7 @@ def run_traces(ctx, X):
         kinds = ['simple'] if n < 2 else (['simple', 'array'] if rng.random() < 0.6 else [rng.choice(['simple', 'array'])])
         if rng.random() < 0.35:
             kinds.append('history')
-        if rng.random() < 0.5:
+        if rng.random() < 0.4:
             kinds.append('evaluated')
         for pkind in kinds:
             sub = rng.getrandbits(48)
@@ -599,6 +608,10 @@ def run_traces(ctx, X):
             ev, floats = events_of(model, mid, pkind, declared, X)
             steps = [e for e in ev if e['ev'] == 'step']
             recipe = dict(trace=True, sub=sub, n=n, pkind=pkind, mid=mid)
+            if declared.get('raised'):
+                # an evaluation entry point raised on an input inside the quantifier (reported like the
+                # framework reports any exception of the implementation); the structure is judged all the same
+                ctx.verdict('implementation_raised', False, cls=declared['raised'], detail='%s (n=%d)' % (label, n), vector=recipe)
             for e, f in zip(steps, floats):
                 meta[e['id']] = (label, n, f, recipe)
             for e in ev:
@@ -849,21 +862,21 @@ def run(ctx):
                        'molecular masses are those of taurex.util.get_molecular_weight (how mu is computed is C10); binding A states the masses of the spec vector to the real ChemistryFile',
                        'metres per length unit: IAU nominal values, cross-checked against astropy',
                        'the declared chemistry tables have pairwise distinct entries (checked by TLC on every chem event); ArrayGas arrays have one entry per layer',
-                       'second-route and chem events of grids longer than 24 / 60 layers log a fixed sample of layers (the obligations are local)']
+                       'second-route and chem events of grids longer than 12 / 60 layers log a fixed sample of layers (the obligations are local)']
     tier = ctx.tier
     t0 = time.time()
     # the design-level TLC runs are independent processes: run them side by side while taurex is imported
     with ThreadPoolExecutor(max_workers=6) as ex:
         jobs = [ex.submit(ctx.check_spec, 'exhaustive', 'MC_Atmosphere', 'MC_Atmosphere_%s.cfg' % tier,
                           need_actions=('Levels', 'Chemistry', 'Step', 'Profiles', 'Evaluate'), workers=6),
-                ex.submit(ctx.check_spec, 'export', 'MC_Atmosphere', 'EX_Atmosphere.cfg', workers=1)]
+                ex.submit(ctx.check_spec, 'export', 'MC_Atmosphere', 'EX_Atmosphere_quick.cfg' if q else 'EX_Atmosphere.cfg', workers=1)]
         # non-vacuity: each modelled defect (top layer dropped; square table kept un-transposed; unit
         # conversion inside the recurrence; in-place z += dz/2 during evaluation) is refuted by TLC
         for label, cfg, inv in (('droplast-refuted', 'MC_Atmosphere_droplast.cfg', 'OneEntryPerLayer'),
                                 ('transposed-refuted', 'MC_Atmosphere_transposed.cfg', 'MixAlignedWithLayers'),
                                 ('unitloop-refuted', 'MC_Atmosphere_unitloop.cfg', 'StepRelationAnyUnit'),
                                 ('inplace-refuted', 'MC_Atmosphere_inplace.cfg', 'EvaluationKeepsStructure')):
-            jobs.append(ex.submit(ctx.expect_refuted, label, 'MC_Atmosphere', cfg, inv, workers=2))
+            jobs.append(ex.submit(ctx.expect_refuted, label, 'MC_Atmosphere', cfg, inv, workers=1))
         X = setup()
         if not units_consistent():
             raise Machinery('the harness table of length units disagrees with astropy')
@@ -903,7 +916,7 @@ def replay(ctx, violations):
 
 
 def _replay(ctx, violations, X):
-    models, items = {}, []
+    models, items, raised = {}, [], {}
     for v in violations:
         vec = v['vector']
         if vec.get('history'):
@@ -918,12 +931,16 @@ def _replay(ctx, violations, X):
             ev, floats = events_of(model, vec['mid'], vec['pkind'], declared, X)
             fl = dict(zip([e['id'] for e in ev if e['ev'] == 'step'], floats))
             models[key] = ({e['id']: e for e in ev}, fl)
+            raised[key] = declared.get('raised')
         evs, fl = models[key]
+        if v['clause'] == 'implementation_raised':
+            ctx.verdict(v['clause'], not raised.get(key), cls=v['cls'], detail='replay: %s' % (raised.get(key) or 'evaluation completed'), vector=vec)
+            continue
         e = evs.get(vec['event']['id'])
         if e is None:
             raise Machinery('replay: event %s not produced again' % vec['event']['id'])
         if v['clause'] == 'step_relations_float_1e-9':
-            ctx.verdict(v['clause'], float_step_ok(fl[e['id']]), cls=v['cls'], detail='raw floats %r' % (fl[e['id']],), vector=vec)
+            ctx.verdict(v['clause'], float_step_ok(fl[e['id']], e['route']), cls=v['cls'], detail='raw floats %r' % (fl[e['id']],), vector=vec)
         else:
             items.append((v, e))
     if items:
